@@ -25,7 +25,23 @@
 
    The contract (statement in checks/x04.py):  Exp(kind, fh, f) is the sequence of expected messages of file f;
    MsgOK decides one observed message against one expected one, NameOK/NameNext the naming (ECU per channel name,
-   APID per tag: a function, injective within the namespace).                                                    *)
+   APID per tag: a function, injective within the namespace).  Clauses:
+     C1 one message per record line, in file order, numbered start, start+1, ... (mcnt = index mod 256); other lines: nothing;
+        logcat/genlog: the first record of a tag (per file) is preceded by a GET_LOG_INFO response carrying APID and tag
+     C2 ASC reception time = last date line + signed offset (bus mapping: the date); without date line = construction
+        time + offset (checked relative to the first message).  Time stamp = offset div 0.1 ms (+ (date - reference) div
+        0.1 ms if the reference time lies before the date); a negative offset counts from the first negative offset of
+        its date section (with a reference time: offset below the date's stamp, either rounding, not below 0)
+     C3 logcat up-time line: reception = file time + up-time, stamp = up-time.  Date line: year = file's year, previous
+        year if the date would be after the file's date (file's date = day of file time + 1 s); a time in
+        [1 Jan 00:00, 1 Jan 12:00) of the file's year is up-time since 1 Jan 00:00; any other time is absolute, its stamp
+        = distance to the first absolute record + (last up-time before that one, else 10000 s)
+     C4 genlog reception = the record's UTC time, stamp = distance to the first record (not below 0)
+     C5 content: CAN payload = frame id (native u32) + data bytes, non-verbose network-trace CAN, 2 arguments; error frame =
+        empty payload + text "Error Frame"; log = verbose log of the mapped level with the record's text; ids CAN/TC, LogC, GenL;
+        ECU LC<nn> / GL<nn> (namespace mod 100)
+     C6 names: the ECU of a CAN channel belongs to the bus-mapping name that bound the channel (first line of the channel in
+        the file) or to (file, channel); the APID belongs to the tag; same key -> same name, new key -> unused name     *)
 EXTENDS Integers, Sequences, FiniteSets, TLC
 
 \* (TLC tries the candidates of a CHOOSE in ascending order: Min is linear this way, so Max goes through Min)
